@@ -499,6 +499,46 @@ Theorem relative_agree entry rpath dir ip :
   dir = entry ++ y_rel_rpath rpath -> y_rel_dir entry rpath ip = clean (dir ++ ip).
 Proof. intros ->. unfold y_rel_dir. now rewrite app_assoc. Qed.
 
+(** the [rPath] handed to the imports of a package is that package's directory relative to
+    GOPATH/src (so that [y_resolve] from the importing *directory* is what importSrc computes),
+    provided the import path has no "vendor" element before its last one *)
+Lemma keep_until_notin w t : ~ In w t -> keep_until w t = t.
+Proof.
+  induction t as [|x t IH]; simpl; [reflexivity|]. intros H.
+  destruct (str_eqb_spec x w) as [->|Hn]; [exfalso; apply H; now left|].
+  rewrite IH; [reflexivity|]. intros Hin. apply H. now right.
+Qed.
+
+Lemma eff_kept_novendor (root ip : path) :
+  ip <> [] -> ~ In (last root []) (removelast ip) -> eff_kept root ip = ip.
+Proof.
+  intros Hne Hnv. unfold eff_kept. destruct (rev ip) as [|lst t] eqn:E.
+  { apply (f_equal (@length str)) in E. rewrite rev_length in E. destruct ip; [congruence|discriminate]. }
+  apply (f_equal (@rev str)) in E. rewrite rev_involutive in E. simpl in E.
+  destruct (2 <=? length root); [|reflexivity].
+  rewrite E, removelast_app_unit in Hnv. rewrite keep_until_notin; [now rewrite E|].
+  intros H. apply Hnv. now apply in_rev in H.
+Qed.
+
+Theorem sub_rpath_is_dir st gsrc ip :
+  plain ip = true -> ip <> [] -> ~ In vendor (removelast ip) ->
+  forall fuel root dir rp, plain root = true ->
+    y_pkg_dir st gsrc fuel root ip = Found dir rp -> dir = gsrc ++ y_effective_pkg rp ip.
+Proof.
+  intros Hp Hne Hnv. induction fuel as [|f IH]; intros root dir rp Hr H; [discriminate|].
+  cbn [y_pkg_dir] in H. destruct (st (gsrc ++ (root ++ [vendor]) ++ ip)).
+  - injection H as <- <-. f_equal.
+    rewrite effective_pkg_spec; try assumption.
+    + rewrite eff_kept_novendor; [reflexivity|assumption|]. now rewrite last_app_unit.
+    + rewrite plain_app, Hr. reflexivity.
+  - destruct (st (gsrc ++ y_effective_pkg root ip)).
+    + now injection H as <- <-.
+    + destruct root as [|a r]; [discriminate|].
+      destruct (previous_root_spec st gsrc (a :: r) ltac:(discriminate)) as [r' [ext [E [_ [Hprev _]]]]].
+      rewrite Hprev in H. eapply IH; [|exact H].
+      rewrite E, plain_app in Hr. now apply andb_true_iff in Hr as [Hr _].
+Qed.
+
 (* ------------------------------------------------------------------ *)
 (** * The filesystem is only used through its Stat answers *)
 
@@ -541,3 +581,591 @@ Proof.
   apply existsb_exists. exists k. split; [assumption|]. apply path_eqb_eq in Hp. subst p.
   apply is_prefix_spec. exists []. now rewrite app_nil_r.
 Qed.
+
+(* ------------------------------------------------------------------ *)
+(** * The loader (importSrc): each import path once, termination, no cycle among loaded packages *)
+
+Definition keys (m : list (path * path)) : list path := map fst m.
+
+Definition inits (l : list event) : list path :=
+  flat_map (fun ev => match ev with EvInit d => [d] | _ => [] end) l.
+
+Lemma inits_app a b : inits (a ++ b) = inits a ++ inits b.
+Proof. unfold inits. now rewrite flat_map_app. Qed.
+
+Lemma inits_edges memo dir imps : inits (y_edges memo dir imps) = [].
+Proof. unfold y_edges. induction imps; simpl; [reflexivity|assumption]. Qed.
+
+Lemma assoc_none k m : assoc k m = None <-> ~ In k (keys m).
+Proof.
+  induction m as [|[k' v] m IH]; simpl; [tauto|].
+  destruct (path_eqb_spec k' k) as [->|Hn].
+  - split; [discriminate|]. intros H. exfalso. apply H. now left.
+  - rewrite IH. split; [intros H [E|E]; [congruence|tauto] | tauto].
+Qed.
+
+Lemma assoc_some k m v : assoc k m = Some v -> In (k, v) m.
+Proof.
+  induction m as [|[k' v'] m IH]; simpl; [discriminate|].
+  destruct (path_eqb_spec k' k) as [->|Hn]; [intros [= ->]; now left | intros H; right; auto].
+Qed.
+
+Lemma keys_app a b : keys (a ++ b) = keys a ++ keys b.
+Proof. unfold keys. apply map_app. Qed.
+
+Lemma NoDup_app_intro (A : Type) (a b : list A) :
+  NoDup a -> NoDup b -> (forall x, In x a -> In x b -> False) -> NoDup (a ++ b).
+Proof.
+  induction a as [|x a IH]; intros Ha Hb Hd; simpl; [assumption|].
+  inversion Ha; subst. constructor.
+  - intros Hin. apply in_app_or in Hin as [Hin|Hin]; [contradiction|]. apply (Hd x); [now left|assumption].
+  - apply IH; try assumption. intros y Hy. apply Hd. now right.
+Qed.
+
+(** [ystep s s']: what one call of importSrc may do to the interpreter state *)
+Definition ystep (s s' : ystate) : Prop :=
+  incl (y_rdir s) (y_rdir s') /\
+  exists m l, y_memo s' = y_memo s ++ m /\ y_log s' = y_log s ++ l /\ inits l = map snd m
+              /\ (forall k, In k (keys m) -> ~ In k (y_rdir s) /\ In k (y_rdir s'))
+              /\ NoDup (keys m).
+
+Lemma ystep_refl s : ystep s s.
+Proof.
+  split; [apply incl_refl|]. exists [], []. rewrite !app_nil_r.
+  split; [reflexivity|]. split; [reflexivity|]. split; [reflexivity|].
+  split; [intros k []|constructor].
+Qed.
+
+Lemma ystep_trans s1 s2 s3 : ystep s1 s2 -> ystep s2 s3 -> ystep s1 s3.
+Proof.
+  intros [I1 [m1 [l1 [M1 [L1 [N1 [K1 D1]]]]]]] [I2 [m2 [l2 [M2 [L2 [N2 [K2 D2]]]]]]].
+  split; [eapply incl_tran; eassumption|]. exists (m1 ++ m2), (l1 ++ l2).
+  rewrite M2, M1, L2, L1, !app_assoc, inits_app, map_app, N1, N2.
+  split; [reflexivity|]. split; [reflexivity|]. split; [reflexivity|].
+  split; [intros k H; split|].
+  - rewrite keys_app in H. apply in_app_or in H as [H|H].
+    + now apply K1.
+    + intros Hin. apply (proj1 (K2 k H)). now apply I1.
+  - rewrite keys_app in H. apply in_app_or in H as [H|H].
+    + apply I2. now apply K1.
+    + now apply K2.
+  - rewrite keys_app. apply NoDup_app_intro; try assumption.
+    intros k Hk1 Hk2. apply (proj1 (K2 k Hk2)). now apply K1.
+Qed.
+
+Definition y_find (c : ctx) (rpath ip : path) : found :=
+  if is_rel ip then Found (y_rel_dir (c_entry c) rpath ip) (y_rel_rpath rpath)
+  else y_pkg_dir (tree_stat (c_tree c)) (c_gsrc c) (S (length rpath)) rpath ip.
+
+Definition y_mark (s : ystate) (ip : path) : ystate :=
+  {| y_memo := y_memo s; y_rdir := ip :: y_rdir s; y_log := y_log s |}.
+
+Definition y_done (s : ystate) (ip dir : path) (imps : list path) : ystate :=
+  let memo := y_memo s ++ [(ip, dir)] in
+  {| y_memo := memo; y_rdir := y_rdir s; y_log := y_log s ++ EvInit dir :: y_edges memo dir imps |}.
+
+Lemma y_load_S c f s rpath ip0 :
+  y_load c (S f) s rpath ip0 =
+  match assoc (y_key ip0) (y_memo s) with
+  | Some _ => (s, None)
+  | None =>
+      match y_find c rpath (y_key ip0) with
+      | OutOfFuel => (s, Some EFuel)
+      | NotFound => (s, Some ENotFound)
+      | Found dir rp =>
+          if mem_path (y_key ip0) (y_rdir s) then (s, Some ECycle)
+          else match imports_of (c_tree c) dir with
+               | None => (y_mark s (y_key ip0), Some (if tree_stat (c_tree c) dir then ENoGo else ENotFound))
+               | Some imps =>
+                   match fold_load (fun s i => y_load c f s (y_effective_pkg rp (y_key ip0)) i)
+                                   (y_mark s (y_key ip0)) imps with
+                   | (st2, None) => (y_done st2 (y_key ip0) dir imps, None)
+                   | e => e
+                   end
+               end
+      end
+  end.
+Proof. reflexivity. Qed.
+
+Lemma fold_load_pres (S : Type) (ld : S -> path -> S * option err) (R : S -> S -> Prop) :
+  (forall s, R s s) -> (forall a b c, R a b -> R b c -> R a c) ->
+  forall imps, (forall s i s' e, In i imps -> ld s i = (s', e) -> R s s') ->
+  forall s s' e, fold_load ld s imps = (s', e) -> R s s'.
+Proof.
+  intros Hr Ht; induction imps as [|i r IH]; intros Hld s s' e H; simpl in H.
+  - injection H as <- _. apply Hr.
+  - destruct (ld s i) as [s1 [e1|]] eqn:E.
+    + injection H as <- _. eapply Hld; [now left|exact E].
+    + eapply Ht; [eapply Hld; [now left|exact E]|].
+      eapply IH; [|exact H]. intros; eapply Hld; [right|]; eassumption.
+Qed.
+
+Lemma ystep_mark s ip : ystep s (y_mark s ip).
+Proof.
+  split; [apply incl_tl, incl_refl|]. exists [], []. simpl. rewrite !app_nil_r.
+  split; [reflexivity|]. split; [reflexivity|]. split; [reflexivity|].
+  split; [intros k []|constructor].
+Qed.
+
+Lemma ystep_done s st2 ip dir imps :
+  ~ In ip (y_rdir s) -> ystep (y_mark s ip) st2 -> ystep s (y_done st2 ip dir imps).
+Proof.
+  intros Hnot [I [m [l [M [L [N [K D]]]]]]]. simpl in *.
+  split; [intros k Hk; apply I; now right|].
+  exists (m ++ [(ip, dir)]), (l ++ EvInit dir :: y_edges (y_memo st2 ++ [(ip, dir)]) dir imps).
+  simpl. rewrite M, L, !app_assoc.
+  split; [reflexivity|]. split; [now rewrite <- !app_assoc|].
+  split; [rewrite inits_app, map_app, N; simpl; now rewrite inits_edges|].
+  split.
+  - intros k Hk. rewrite keys_app in Hk. apply in_app_or in Hk as [Hk|Hk].
+    + destruct (K k Hk) as [K1 K2]. split; [|assumption]. intros Hin. apply K1. now right.
+    + simpl in Hk. destruct Hk as [<-|[]]. split; [assumption|]. apply I. now left.
+  - rewrite keys_app. apply NoDup_app_intro; [assumption|repeat constructor; intros []|].
+    intros k Hk1 Hk2. simpl in Hk2. destruct Hk2 as [<-|[]]. apply (proj1 (K ip Hk1)). now left.
+Qed.
+
+Theorem y_load_step c : forall fuel s rpath ip s' e,
+  y_load c fuel s rpath ip = (s', e) -> ystep s s'.
+Proof.
+  induction fuel as [|f IH]; intros s rpath ip s' e H.
+  - simpl in H. injection H as <- _. apply ystep_refl.
+  - rewrite y_load_S in H.
+    destruct (assoc _ _); [injection H as <- _; apply ystep_refl|].
+    destruct (y_find _ _ _) as [dir rp| |]; try (injection H as <- _; apply ystep_refl).
+    destruct (mem_path _ _) eqn:Em; [injection H as <- _; apply ystep_refl|].
+    apply mem_path_not_In in Em.
+    destruct (imports_of _ _) as [imps|]; [|injection H as <- _; apply ystep_mark].
+    destruct (fold_load _ _ _) as [st2 [e2|]] eqn:Ef.
+    + injection H as <- _. eapply ystep_trans; [apply ystep_mark|].
+      eapply (fold_load_pres _ _ ystep ystep_refl ystep_trans); [|exact Ef].
+      intros ? ? ? ? _ Hx; cbv beta in Hx; eapply IH; exact Hx.
+    + injection H as <- _. apply ystep_done; [assumption|].
+      eapply (fold_load_pres _ _ ystep ystep_refl ystep_trans); [|exact Ef].
+      intros ? ? ? ? _ Hx; cbv beta in Hx; eapply IH; exact Hx.
+Qed.
+
+(** each import path is evaluated at most once, and the init functions that ran are exactly those
+    of the memoised packages, in order *)
+Theorem load_once c fuel rpath ip s' e :
+  y_load c fuel y_init rpath ip = (s', e) ->
+  NoDup (keys (y_memo s')) /\ inits (y_log s') = map snd (y_memo s').
+Proof.
+  intros H. apply y_load_step in H as [_ [m [l [M [L [N [_ D]]]]]]].
+  simpl in M, L. now rewrite M, L.
+Qed.
+
+Theorem load_once_file c fuel rpath imps s' e :
+  fold_load (fun s i => y_load c fuel s rpath i) y_init imps = (s', e) ->
+  NoDup (keys (y_memo s')) /\ inits (y_log s') = map snd (y_memo s').
+Proof.
+  intros H.
+  apply (fold_load_pres _ _ ystep ystep_refl ystep_trans) in H as [_ [m [l [M [L [N [_ D]]]]]]].
+  - simpl in M, L. now rewrite M, L.
+  - intros ? ? ? ? _ Hx; cbv beta in Hx; eapply y_load_step; exact Hx.
+Qed.
+
+(** ** Termination: the set [rdir] grows at each level and is bounded by the import paths of the program *)
+
+Definition mu (U rdir : list path) : nat := length (filter (fun k => negb (mem_path k rdir)) U).
+
+Lemma filter_length_le (A : Type) (p q : A -> bool) l :
+  (forall x, p x = true -> q x = true) -> length (filter p l) <= length (filter q l).
+Proof.
+  intros H; induction l as [|a l IH]; simpl; [lia|].
+  destruct (p a) eqn:Ep; [rewrite (H a Ep); simpl; lia|]. destruct (q a); simpl; lia.
+Qed.
+
+Lemma filter_length_lt (A : Type) (p q : A -> bool) l a :
+  (forall x, p x = true -> q x = true) -> In a l -> q a = true -> p a = false ->
+  length (filter p l) < length (filter q l).
+Proof.
+  intros H; induction l as [|b l IH]; simpl; intros Hin Hq Hp; [contradiction|].
+  destruct Hin as [->|Hin].
+  - rewrite Hp, Hq. simpl. pose proof (filter_length_le A p q l H). lia.
+  - specialize (IH Hin Hq Hp). destruct (p b) eqn:Ep; [rewrite (H b Ep); simpl; lia|].
+    destruct (q b); simpl; lia.
+Qed.
+
+Lemma mu_mono U r r' : incl r r' -> mu U r' <= mu U r.
+Proof.
+  intros H. apply filter_length_le. intros x Hx. apply negb_true_iff in Hx. apply negb_true_iff.
+  apply mem_path_not_In in Hx. apply mem_path_not_In. auto.
+Qed.
+
+Lemma mu_mark U r k : In k U -> ~ In k r -> mu U (k :: r) < mu U r.
+Proof.
+  intros HU Hr. apply (filter_length_lt _ _ _ U k).
+  - intros x Hx. apply negb_true_iff in Hx. apply negb_true_iff.
+    apply mem_path_not_In in Hx. apply mem_path_not_In. intros H. apply Hx. now right.
+  - assumption.
+  - apply negb_true_iff. now apply mem_path_not_In.
+  - apply negb_false_iff. apply mem_path_In. now left.
+Qed.
+
+Lemma imports_of_In t d imps i : imports_of t d = Some imps -> In i imps -> In i (all_imports t).
+Proof.
+  unfold all_imports. induction t as [|k t IH]; simpl; [discriminate|].
+  destruct (path_eqb (pdir k) d).
+  - intros [= <-] Hi. apply in_or_app. now left.
+  - intros H Hi. apply in_or_app. right. now apply IH.
+Qed.
+
+Lemma y_find_fuel c rpath ip : y_find c rpath ip <> OutOfFuel.
+Proof. unfold y_find. destruct (is_rel ip); [discriminate|]. apply pkg_dir_fuel. lia. Qed.
+
+Section Termination.
+  Variable c : ctx.
+  Variable U : list path.
+  Hypothesis HU : forall i, In i (all_imports (c_tree c)) -> In (y_key i) U.
+
+  Lemma y_load_no_fuel : forall fuel s rpath ip,
+    In (y_key ip) U -> mu U (y_rdir s) < fuel -> snd (y_load c fuel s rpath ip) <> Some EFuel.
+  Proof.
+    induction fuel as [|f IH]; intros s rpath ip Hin Hmu; [lia|].
+    rewrite y_load_S.
+    destruct (assoc _ _); [discriminate|].
+    pose proof (y_find_fuel c rpath (y_key ip)) as Hff.
+    destruct (y_find _ _ _) as [dir rp| |]; [|discriminate|congruence].
+    destruct (mem_path _ _) eqn:Em; [discriminate|]. apply mem_path_not_In in Em.
+    destruct (imports_of _ _) as [imps|] eqn:Ei; [|simpl; destruct (tree_stat _ _); discriminate].
+    assert (Hm : mu U (y_rdir (y_mark s (y_key ip))) < f).
+    { simpl. pose proof (mu_mark U (y_rdir s) (y_key ip) Hin Em). lia. }
+    assert (Hfold : forall l s0, incl l imps -> mu U (y_rdir s0) < f ->
+              snd (fold_load (fun s i => y_load c f s (y_effective_pkg rp (y_key ip)) i) s0 l) <> Some EFuel).
+    { induction l as [|i l IHl]; intros s0 Hl Hs0; simpl; [discriminate|].
+      destruct (y_load c f s0 (y_effective_pkg rp (y_key ip)) i) as [s1 [e1|]] eqn:El.
+      - pose proof (IH s0 (y_effective_pkg rp (y_key ip)) i) as Hi. rewrite El in Hi. apply Hi; [|assumption].
+        apply HU. eapply imports_of_In; [exact Ei|]. apply Hl. now left.
+      - apply IHl; [intros x Hx; apply Hl; now right|].
+        apply y_load_step in El as [Hinc _]. pose proof (mu_mono U _ _ Hinc). lia. }
+    specialize (Hfold imps (y_mark s (y_key ip)) (incl_refl _) Hm).
+    destruct (fold_load _ _ _) as [st2 [e2|]]; [exact Hfold|discriminate].
+  Qed.
+End Termination.
+
+Lemma mu_le_length U r : mu U r <= length U.
+Proof. unfold mu. induction U as [|a U IH]; simpl; [lia|]. destruct (negb _); simpl; lia. Qed.
+
+(** [EvalPath] on an import path never runs out of fuel: importSrc terminates on every program,
+    cyclic or not *)
+Theorem load_terminates_path c e : snd (y_run_path c e) <> Some EFuel.
+Proof.
+  unfold y_run_path.
+  pose proof (y_load_no_fuel c (y_key e :: map y_key (all_imports (c_tree c)))
+                (fun i Hi => or_intror (in_map y_key _ _ Hi))
+                (load_fuel (c_tree c)) y_init [mainid] e (or_introl eq_refl)) as H.
+  destruct (y_load _ _ _ _ _) as [st [x|]]; [|discriminate]. simpl in *. apply H.
+  pose proof (mu_le_length (y_key e :: map y_key (all_imports (c_tree c))) []).
+  simpl in H0. rewrite map_length in H0. unfold load_fuel. lia.
+Qed.
+
+Theorem load_terminates_file c : snd (y_run_file c) <> Some EFuel.
+Proof.
+  unfold y_run_file. destruct (imports_of _ _) as [imps|] eqn:Ei; [|discriminate].
+  set (U := map y_key (all_imports (c_tree c))).
+  assert (HU : forall i, In i (all_imports (c_tree c)) -> In (y_key i) U) by (intros; now apply in_map).
+  assert (Hfold : forall l s0, incl l imps ->
+            snd (fold_load (fun s i => y_load c (load_fuel (c_tree c)) s [mainid] i) s0 l) <> Some EFuel).
+  { induction l as [|i l IHl]; intros s0 Hl; cbn [fold_load snd]; [discriminate|].
+    destruct (y_load c (load_fuel (c_tree c)) s0 [mainid] i) as [s1 [e1|]] eqn:El.
+    - pose proof (y_load_no_fuel c U HU (load_fuel (c_tree c)) s0 [mainid] i) as Hi. rewrite El in Hi.
+      apply Hi.
+      + apply HU. eapply imports_of_In; [exact Ei|]. apply Hl. now left.
+      + pose proof (mu_le_length U (y_rdir s0)). unfold U in H. rewrite map_length in H.
+        unfold load_fuel. subst U. lia.
+    - apply IHl. intros x Hx. apply Hl. now right. }
+  specialize (Hfold imps y_init (incl_refl _)).
+  destruct (fold_load _ _ _) as [st [x|]]; [exact Hfold|discriminate].
+Qed.
+
+(** ** A successful load is a topological order: no cycle among the loaded packages *)
+
+Section Acyclic.
+  Variable c : ctx.
+
+  (** every package in the memo has all its imports earlier in the memo *)
+  Definition topo (memo : list (path * path)) : Prop :=
+    forall m1 k d m2 imps i, memo = m1 ++ (k, d) :: m2 ->
+      imports_of (c_tree c) d = Some imps -> In i imps -> In (y_key i) (keys m1).
+
+  Lemma y_load_ok_key : forall fuel s rpath ip s',
+    y_load c fuel s rpath ip = (s', None) -> In (y_key ip) (keys (y_memo s')).
+  Proof.
+    destruct fuel as [|f]; intros s rpath ip s' H; [discriminate|].
+    rewrite y_load_S in H.
+    destruct (assoc _ _) eqn:Ea.
+    - injection H as <-. destruct (assoc_none (y_key ip) (y_memo s)) as [_ Hn].
+      destruct (in_dec (list_eq_dec (list_eq_dec ascii_dec)) (y_key ip) (keys (y_memo s))); [assumption|].
+      rewrite (Hn n) in Ea. discriminate.
+    - destruct (y_find _ _ _) as [dir rp| |]; try discriminate.
+      destruct (mem_path _ _); [discriminate|].
+      destruct (imports_of _ _) as [imps|]; [|discriminate].
+      destruct (fold_load _ _ _) as [st2 [e2|]]; [discriminate|].
+      injection H as <-. simpl. rewrite keys_app. apply in_or_app. right. now left.
+  Qed.
+
+  Lemma ystep_keys s s' : ystep s s' -> incl (keys (y_memo s)) (keys (y_memo s')).
+  Proof. intros [_ [m [l [M _]]]]. rewrite M, keys_app. now apply incl_appl, incl_refl. Qed.
+
+  Lemma fold_ok_keys fuel rp : forall imps s s',
+    fold_load (fun s i => y_load c fuel s rp i) s imps = (s', None) ->
+    forall i, In i imps -> In (y_key i) (keys (y_memo s')).
+  Proof.
+    induction imps as [|j r IH]; intros s s' H i Hi; [contradiction|]. simpl in H.
+    destruct (y_load c fuel s rp j) as [s1 [e1|]] eqn:El; [discriminate|].
+    destruct Hi as [<-|Hi].
+    - apply y_load_ok_key in El.
+      assert (ystep s1 s') as Hs.
+      { eapply (fold_load_pres _ _ ystep ystep_refl ystep_trans); [|exact H].
+        intros ? ? ? ? _ Hx; cbv beta in Hx; eapply y_load_step; exact Hx. }
+      now apply (ystep_keys _ _ Hs).
+    - eapply IH; eassumption.
+  Qed.
+
+  Lemma app_unit_cases (A : Type) (l : list A) a m1 b m2 :
+    l ++ [a] = m1 ++ b :: m2 ->
+    (m2 = [] /\ l = m1 /\ a = b) \/ exists m2', m2 = m2' ++ [a] /\ l = m1 ++ b :: m2'.
+  Proof.
+    intros H. destruct (app_unit_split _ _ _ _ _ H ltac:(discriminate)) as [e2' [He Hl]].
+    destruct e2' as [|b' e'].
+    - simpl in He. injection He as -> ->. rewrite app_nil_r in Hl. now left.
+    - simpl in He. injection He as -> ->. right. now exists e'.
+  Qed.
+
+  Lemma y_load_topo : forall fuel s rpath ip s' e,
+    topo (y_memo s) -> y_load c fuel s rpath ip = (s', e) -> topo (y_memo s').
+  Proof.
+    induction fuel as [|f IH]; intros s rpath ip s' e Ht H.
+    - simpl in H. now injection H as <- _.
+    - rewrite y_load_S in H.
+      destruct (assoc _ _); [now injection H as <- _|].
+      destruct (y_find _ _ _) as [dir rp| |]; try (now injection H as <- _).
+      destruct (mem_path _ _); [now injection H as <- _|].
+      destruct (imports_of _ _) as [imps|] eqn:Ei; [|now injection H as <- _].
+      destruct (fold_load _ _ _) as [st2 [e2|]] eqn:Ef.
+      + injection H as <- _.
+        apply (fold_load_pres _ _ (fun a b => topo (y_memo a) -> topo (y_memo b))) in Ef; auto.
+        intros ? ? ? ? _ Hx Hy; cbv beta in Hx; eapply IH; eassumption.
+      + injection H as <- _. simpl.
+        assert (Ht2 : topo (y_memo st2)).
+        { apply (fold_load_pres _ _ (fun a b => topo (y_memo a) -> topo (y_memo b))) in Ef; auto.
+          intros ? ? ? ? _ Hx Hy; cbv beta in Hx; eapply IH; eassumption. }
+        intros m1 k d m2 imps' i Hsplit Himp Hi.
+        apply app_unit_cases in Hsplit as [[-> [<- [= <- <-]]]|[m2' [-> Hm]]].
+        * rewrite Ei in Himp. injection Himp as <-. eapply fold_ok_keys; eassumption.
+        * eapply Ht2; eassumption.
+  Qed.
+
+  (** the import relation among the loaded packages, on import-path keys *)
+  Definition key_edge (memo : list (path * path)) (k k' : path) : Prop :=
+    exists d imps i, In (k, d) memo /\ imports_of (c_tree c) d = Some imps /\ In i imps /\ k' = y_key i.
+
+  Lemma nodup_keys_unique m1 k d m2 d0 :
+    NoDup (keys (m1 ++ (k, d) :: m2)) -> In (k, d0) (m1 ++ (k, d) :: m2) -> d0 = d.
+  Proof.
+    rewrite keys_app. simpl. intros Hnd Hin.
+    apply NoDup_remove_2 in Hnd.
+    apply in_app_or in Hin as [Hin|[Hin|Hin]].
+    - exfalso. apply Hnd. apply in_or_app. left. now apply (in_map fst) in Hin.
+    - congruence.
+    - exfalso. apply Hnd. apply in_or_app. right. now apply (in_map fst) in Hin.
+  Qed.
+
+  Lemma reach_back memo : topo memo -> NoDup (keys memo) ->
+    forall n m1 k d m2, length m1 <= n -> memo = m1 ++ (k, d) :: m2 ->
+    forall k', clos_trans_1n _ (key_edge memo) k k' -> In k' (keys m1).
+  Proof.
+    intros Ht Hnd. induction n as [|n IH]; intros m1 k d m2 Hlen Hm k' Hreach.
+    - destruct m1; [|simpl in Hlen; lia].
+      exfalso. destruct Hreach as [y [d0 [imps [i [Hin [Himp [Hi ->]]]]]]|y z [d0 [imps [i [Hin [Himp [Hi ->]]]]]] _].
+      + rewrite Hm in Hin, Hnd. pose proof (nodup_keys_unique [] k d m2 d0 Hnd Hin) as ->.
+        apply (Ht [] k d m2 imps i Hm Himp Hi).
+      + rewrite Hm in Hin, Hnd. pose proof (nodup_keys_unique [] k d m2 d0 Hnd Hin) as ->.
+        apply (Ht [] k d m2 imps i Hm Himp Hi).
+    - assert (Hedge : forall y, key_edge memo k y -> In y (keys m1)).
+      { intros y [d0 [imps [i [Hin [Himp [Hi ->]]]]]].
+        assert (d0 = d) as -> by (rewrite Hm in Hin, Hnd; eapply nodup_keys_unique; eassumption).
+        eapply Ht; eassumption. }
+      destruct Hreach as [y He|y z He Hrest]; [now apply Hedge|].
+      apply Hedge in He. unfold keys in He. apply in_map_iff in He as [[y' dy] [Hy Hin]]. simpl in Hy. subst y'.
+      apply in_split in Hin as [a [b ->]].
+      assert (In z (keys a)).
+      { eapply (IH a y dy (b ++ (k, d) :: m2)); [| |exact Hrest].
+        - rewrite app_length in Hlen. simpl in Hlen. lia.
+        - rewrite Hm. now rewrite <- app_assoc. }
+      rewrite keys_app. apply in_or_app. now left.
+  Qed.
+
+  Theorem topo_acyclic memo : topo memo -> NoDup (keys memo) ->
+    forall k, ~ clos_trans _ (key_edge memo) k k.
+  Proof.
+    intros Ht Hnd k Hc. apply clos_trans_t1n in Hc.
+    assert (exists d, In (k, d) memo) as [d Hin].
+    { inversion Hc as [y He|y z He _]; destruct He as [d [? [? [Hin _]]]]; now exists d. }
+    apply in_split in Hin as [m1 [m2 Hm]].
+    pose proof (reach_back memo Ht Hnd (length m1) m1 k d m2 (le_n _) Hm k Hc) as Hk.
+    rewrite Hm, keys_app in Hnd. simpl in Hnd. apply NoDup_remove_2 in Hnd.
+    apply Hnd. apply in_or_app. now left.
+  Qed.
+
+  (** every import of a loaded package is loaded *)
+  Definition closed_memo (memo : list (path * path)) : Prop :=
+    forall k d imps i, In (k, d) memo -> imports_of (c_tree c) d = Some imps -> In i imps ->
+                       In (y_key i) (keys memo).
+
+  Lemma topo_closed memo : topo memo -> closed_memo memo.
+  Proof.
+    intros Ht k d imps i Hin Himp Hi. apply in_split in Hin as [m1 [m2 Hm]].
+    rewrite Hm at 1. rewrite keys_app. apply in_or_app. left. eapply Ht; eassumption.
+  Qed.
+
+  (** if importSrc succeeds, the packages it loaded are closed under import and contain no import
+      cycle; equivalently: whenever following imports from the entry leads back to a package
+      being loaded, an error is returned *)
+  Theorem load_ok_acyclic fuel rpath ip s' :
+    y_load c fuel y_init rpath ip = (s', None) ->
+    In (y_key ip) (keys (y_memo s')) /\ closed_memo (y_memo s')
+    /\ forall k, ~ clos_trans _ (key_edge (y_memo s')) k k.
+  Proof.
+    intros H. split; [eapply y_load_ok_key; exact H|].
+    assert (Ht : topo (y_memo s')).
+    { eapply y_load_topo; [|exact H]. intros m1 k d m2 imps i Hm. destruct m1; discriminate. }
+    split; [now apply topo_closed|]. apply topo_acyclic; [assumption|].
+    eapply load_once; exact H.
+  Qed.
+End Acyclic.
+
+(* ------------------------------------------------------------------ *)
+(** * Witnesses: where the faithful model leaves the specification (each replayed on the code) *)
+
+Local Open Scope string_scope.
+
+(** import "q/r" from src/p: src/p/q/r shadows src/q/r *)
+Definition t_shadow : tree := [mkpkg "gp/src/p" ["q/r"]; mkpkg "gp/src/p/q/r" []; mkpkg "gp/src/q/r" []].
+Definition c_shadow : ctx := mkctx "gp/src" "" t_shadow.
+
+Lemma subdir_shadow_refuted :
+  y_resolve (tree_stat t_shadow) (pth "gp/src") (pth "p") (pth "q/r") = Some (pth "gp/src/p/q/r")
+  /\ g_resolve (tree_stat t_shadow) (tree_hasgo t_shadow) (pth "gp/src") (pth "p") (pth "q/r") = Some (pth "gp/src/q/r")
+  /\ y_run_path c_shadow (pth "p") <> g_run_path c_shadow (pth "p").
+Proof. split; [|split]; vm_compute; [reflexivity|reflexivity|discriminate]. Qed.
+
+(** the same directory evaluated twice under two import paths *)
+Definition t_twice : tree := [mkpkg "gp/src/p" ["q/r"; "p/q/r"]; mkpkg "gp/src/p/q/r" []; mkpkg "gp/src/q/r" []].
+Lemma shadow_double_init_refuted :
+  inits (fst (y_run_path (mkctx "gp/src" "" t_twice) (pth "p")))
+  = [pth "gp/src/p/q/r"; pth "gp/src/p/q/r"; pth "gp/src/p"]
+  /\ inits (fst (g_run_path (mkctx "gp/src" "" t_twice) (pth "p")))
+  = [pth "gp/src/q/r"; pth "gp/src/p/q/r"; pth "gp/src/p"].
+Proof. split; vm_compute; reflexivity. Qed.
+
+(** a relative import in a package found through GOPATH is resolved against the entry file's directory *)
+Definition t_relative : tree :=
+  [mkpkg "work" ["q"]; mkpkg "gp/src/q" ["./r"]; mkpkg "gp/src/q/r" []; mkpkg "work/q/r" []].
+Definition c_relative : ctx := mkctx "gp/src" "work" t_relative.
+
+Lemma relative_refuted :
+  y_rel_dir (pth "work") (pth "q") (pth "./r") = pth "work/q/r"
+  /\ g_imp c_relative (pth "gp/src/q") (pth "./r") = Some (pth "gp/src/q/r")
+  /\ In (EvEdge (pth "gp/src/q") (pth "./r") (pth "work/q/r")) (fst (y_run_file c_relative))
+  /\ In (EvEdge (pth "gp/src/q") (pth "./r") (pth "gp/src/q/r")) (fst (g_run_file c_relative)).
+Proof. repeat split; vm_compute; tauto. Qed.
+
+(** the memo is keyed by the import path string: the second importer of "x" gets the first one's package *)
+Definition t_alias : tree :=
+  [mkpkg "gp/src/e" ["x"; "a"]; mkpkg "gp/src/e/vendor/x" []; mkpkg "gp/src/x" []; mkpkg "gp/src/a" ["x"]].
+Definition c_alias : ctx := mkctx "gp/src" "" t_alias.
+
+Lemma memo_alias_refuted :
+  In (EvEdge (pth "gp/src/a") (pth "x") (pth "gp/src/e/vendor/x")) (fst (y_run_path c_alias (pth "e")))
+  /\ In (EvEdge (pth "gp/src/a") (pth "x") (pth "gp/src/x")) (fst (g_run_path c_alias (pth "e")))
+  /\ ~ In (EvInit (pth "gp/src/x")) (fst (y_run_path c_alias (pth "e")))
+  /\ snd (y_run_path c_alias (pth "e")) = None /\ snd (g_run_path c_alias (pth "e")) = None.
+Proof.
+  repeat split; try (vm_compute; tauto).
+  vm_compute. intros H. repeat (destruct H as [H|H]; [discriminate|]). exact H.
+Qed.
+
+(** ... and [rdir] too: a cycle is reported where there is none *)
+Definition t_false_cycle : tree :=
+  [mkpkg "gp/src/e" ["x"]; mkpkg "gp/src/x" ["p"]; mkpkg "gp/src/p" ["x"]; mkpkg "gp/src/p/vendor/x" []].
+Definition c_false_cycle : ctx := mkctx "gp/src" "" t_false_cycle.
+
+Lemma false_cycle_refuted :
+  snd (y_run_path c_false_cycle (pth "e")) = Some ECycle
+  /\ snd (g_run_path c_false_cycle (pth "e")) = None.
+Proof. split; vm_compute; reflexivity. Qed.
+
+(** import "a/a" is looked up as "a" *)
+Definition t_xx : tree := [mkpkg "gp/src/e" ["a/a"]; mkpkg "gp/src/a" []; mkpkg "gp/src/a/a" []].
+Lemma xx_collapse_refuted :
+  In (EvEdge (pth "gp/src/e") (pth "a/a") (pth "gp/src/a")) (fst (y_run_path (mkctx "gp/src" "" t_xx) (pth "e")))
+  /\ In (EvEdge (pth "gp/src/e") (pth "a/a") (pth "gp/src/a/a")) (fst (g_run_path (mkctx "gp/src" "" t_xx) (pth "e"))).
+Proof. split; vm_compute; tauto. Qed.
+
+(** a vendor directory that only contains sub-packages stops the search *)
+Definition t_nogo : tree := [mkpkg "gp/src/e" ["x"]; mkpkg "gp/src/e/vendor/x/y" []; mkpkg "gp/src/x" []].
+Lemma vendor_nogofiles_refuted :
+  snd (y_run_path (mkctx "gp/src" "" t_nogo) (pth "e")) = Some ENoGo
+  /\ snd (g_run_path (mkctx "gp/src" "" t_nogo) (pth "e")) = None
+  /\ In (EvEdge (pth "gp/src/e") (pth "x") (pth "gp/src/x")) (fst (g_run_path (mkctx "gp/src" "" t_nogo) (pth "e"))).
+Proof. repeat split; vm_compute; tauto. Qed.
+
+(** an entry *file* inside GOPATH: its own vendor directory is not consulted when GOPATH/src has the package *)
+Definition t_entry_file : tree := [mkpkg "gp/src/e" ["x"]; mkpkg "gp/src/e/vendor/x" []; mkpkg "gp/src/x" []].
+Lemma entry_file_vendor_refuted :
+  In (EvEdge (pth "gp/src/e") (pth "x") (pth "gp/src/x")) (fst (y_run_file (mkctx "gp/src" "gp/src/e" t_entry_file)))
+  /\ In (EvEdge (pth "gp/src/e") (pth "x") (pth "gp/src/e/vendor/x")) (fst (g_run_file (mkctx "gp/src" "gp/src/e" t_entry_file))).
+Proof. split; vm_compute; tauto. Qed.
+
+(** a package imported relatively from the entry file gets a GOPATH-relative root it does not have *)
+Definition t_rel_root : tree :=
+  [mkpkg "work" ["./x"]; mkpkg "work/x" ["q"]; mkpkg "gp/src/q" []; mkpkg "gp/src/x/vendor/q" []].
+Lemma relative_root_refuted :
+  In (EvEdge (pth "work/x") (pth "q") (pth "gp/src/x/vendor/q")) (fst (y_run_file (mkctx "gp/src" "work" t_rel_root)))
+  /\ In (EvEdge (pth "work/x") (pth "q") (pth "gp/src/q")) (fst (g_run_file (mkctx "gp/src" "work" t_rel_root))).
+Proof. split; vm_compute; tauto. Qed.
+
+(** ** Non-vacuity *)
+
+(** nested vendor directories, the same import path in three places, a sub-package imported by its full path *)
+Definition t_nested : tree :=
+  [mkpkg "gp/src/a/b/c" ["x"; "y"; "z"; "a/b/c/sub"]; mkpkg "gp/src/a/vendor/x" []; mkpkg "gp/src/a/b/vendor/y" ["x"; "z"];
+   mkpkg "gp/src/z" []; mkpkg "gp/src/a/b/vendor/x" []; mkpkg "gp/src/x" []; mkpkg "gp/src/a/b/c/sub" []].
+
+Lemma resolve_side_inhabited :
+  resolve_side (tree_stat t_nested) (tree_hasgo t_nested) (pth "gp/src") (pth "a/b/c") (pth "x") = true
+  /\ g_resolve (tree_stat t_nested) (tree_hasgo t_nested) (pth "gp/src") (pth "a/b/c") (pth "x") = Some (pth "gp/src/a/b/vendor/x")
+  /\ resolve_side (tree_stat t_nested) (tree_hasgo t_nested) (pth "gp/src") (pth "a/b/c") (pth "a/b/c/sub") = true
+  /\ g_resolve (tree_stat t_nested) (tree_hasgo t_nested) (pth "gp/src") (pth "a/b/c") (pth "a/b/c/sub") = Some (pth "gp/src/a/b/c/sub")
+  /\ resolve_side (tree_stat t_nested) (tree_hasgo t_nested) (pth "gp/src") (pth "a/b/vendor/y") (pth "z") = true.
+Proof. repeat split; vm_compute; reflexivity. Qed.
+
+Lemma load_nested_agree :
+  y_run_path (mkctx "gp/src" "" t_nested) (pth "a/b/c") = g_run_path (mkctx "gp/src" "" t_nested) (pth "a/b/c")
+  /\ snd (y_run_path (mkctx "gp/src" "" t_nested) (pth "a/b/c")) = None
+  /\ length (inits (fst (y_run_path (mkctx "gp/src" "" t_nested) (pth "a/b/c")))) = 5.
+Proof. repeat split; vm_compute; reflexivity. Qed.
+
+(** a diamond is initialised once, a real cycle is an error for both *)
+Definition t_diamond : tree :=
+  [mkpkg "gp/src/e" ["a"; "b"]; mkpkg "gp/src/a" ["c"]; mkpkg "gp/src/b" ["c"]; mkpkg "gp/src/c" []].
+Definition t_cycle : tree :=
+  [mkpkg "gp/src/e" ["a"]; mkpkg "gp/src/a" ["b"]; mkpkg "gp/src/b" ["a"]].
+
+Lemma load_examples :
+  inits (fst (y_run_path (mkctx "gp/src" "" t_diamond) (pth "e")))
+  = [pth "gp/src/c"; pth "gp/src/a"; pth "gp/src/b"; pth "gp/src/e"]
+  /\ y_run_path (mkctx "gp/src" "" t_diamond) (pth "e") = g_run_path (mkctx "gp/src" "" t_diamond) (pth "e")
+  /\ y_run_path (mkctx "gp/src" "" t_cycle) (pth "e") = ([], Some ECycle)
+  /\ g_run_path (mkctx "gp/src" "" t_cycle) (pth "e") = ([], Some ECycle).
+Proof. repeat split; vm_compute; reflexivity. Qed.
+
+(** a chain of relative imports from an entry file outside GOPATH agrees *)
+Definition t_rel_chain : tree :=
+  [mkpkg "work" ["./x"; "q"]; mkpkg "work/x" ["./y"; "../z"; "q"]; mkpkg "work/x/y" []; mkpkg "work/z" ["./w"];
+   mkpkg "work/z/w" []; mkpkg "gp/src/q" []].
+Lemma relative_chain_agree :
+  y_run_file (mkctx "gp/src" "work" t_rel_chain) = g_run_file (mkctx "gp/src" "work" t_rel_chain)
+  /\ snd (y_run_file (mkctx "gp/src" "work" t_rel_chain)) = None.
+Proof. split; vm_compute; reflexivity. Qed.
